@@ -42,6 +42,7 @@ def dispatch (j : Json) : Except String Json := do
   | "cli" => Driver.Cli.handle j
   | "watch" => Driver.Watch.handle j
   | "reconf" => Driver.Configure.handle j
+  | "defaultapi" => Driver.Configure.handle j
   | "race" => Driver.Race.handle j
   | "crash" => Driver.Crash.handle j
   | _ => throw s!"unknown stream {stream}"
